@@ -170,14 +170,41 @@ func find(kind, name string) (addr uintptr, err error, panicked interface{}) {
 	return
 }
 
+// runLookup judges the same lookup twice in a row and once more after an unrelated successful lookup: the answer
+// for a name must not depend on what was looked up before
 func runLookup(ci interface{}, s *vkit.Stats) error {
+	for round := 0; round < 3; round++ {
+		if round == 2 {
+			_, _, _ = find("func", self+"ownFuncA")
+		}
+		if err := runLookupOnce(ci, s, round); err != nil {
+			if round > 0 {
+				return fmt.Errorf("lookup #%d of the same name in a row: %v", round+1, err)
+			}
+			return err
+		}
+	}
+	return nil
+}
+
+func runLookupOnce(ci interface{}, s *vkit.Stats, round int) error {
 	c := ci.(*lookupCase)
 	x := loadWorld()
+	cls := func(n string) {
+		if round == 0 {
+			s.Class(n)
+		}
+	}
+	exc := func(n string) {
+		if round == 0 {
+			s.Exclude(n)
+		}
+	}
 	addr, err, pv := find(c.Kind, c.Name)
 	if pv != nil {
 		// only the documented "needs ldflags" cause may panic, and only when the table cannot be read
 		if e, ok := pv.(error); ok && strings.Contains(strings.ToLower(e.Error()), "ldflags") && x.mode != "default" {
-			s.Class("documented-ldflags-panic")
+			cls("documented-ldflags-panic")
 			return nil
 		}
 		return fmt.Errorf("lookup of %s %q panicked: %v", c.Kind, c.Name, pv)
@@ -185,14 +212,14 @@ func runLookup(ci interface{}, s *vkit.Stats) error {
 	if c.Kind == "func" {
 		want, present := x.funcs[c.Name]
 		if x.fdup[c.Name] {
-			s.Exclude("duplicate-function-name")
+			exc("duplicate-function-name")
 			return nil
 		}
 		if err != nil {
 			if present && x.mode == "default" {
 				return fmt.Errorf("function %q is in the binary (entry %#x) but lookup failed: %v", c.Name, want+x.slide, err)
 			}
-			s.Class("error-result")
+			cls("error-result")
 			return nil
 		}
 		if !present {
@@ -217,13 +244,13 @@ func runLookup(ci interface{}, s *vkit.Stats) error {
 		if sv, ok := x.symFn[c.Name]; ok && sv+x.slide != uint64(addr) {
 			return fmt.Errorf("function %q: lookup gives %#x, .symtab value + slide is %#x", c.Name, addr, sv+x.slide)
 		}
-		s.Class("exact-function")
+		cls("exact-function")
 		return nil
 	}
 	// variables
 	want, present := x.vars[c.Name]
 	if x.vdup[c.Name] {
-		s.Exclude("duplicate-data-symbol-name")
+		exc("duplicate-data-symbol-name")
 		return nil
 	}
 	if err != nil {
@@ -233,27 +260,27 @@ func runLookup(ci interface{}, s *vkit.Stats) error {
 		if own, ok := x.own[c.Name]; ok && x.mode == "default" {
 			return fmt.Errorf("variable %q lives at %#x but lookup failed: %v", c.Name, own, err)
 		}
-		s.Class("error-result")
+		cls("error-result")
 		return nil
 	}
 	if own, ok := x.own[c.Name]; ok {
 		if addr != own {
 			return fmt.Errorf("variable %q: lookup gives %#x, &variable is %#x", c.Name, addr, own)
 		}
-		s.Class("exact-own-variable")
+		cls("exact-own-variable")
 		return nil
 	}
 	if !present {
 		if _, isFn := x.symFn[c.Name]; isFn {
 			// FindVarByName scans all of .symtab; a function symbol found by its exact name is that symbol's address
 			if x.symFn[c.Name]+x.slide == uint64(addr) {
-				s.Class("function-symbol-via-var-lookup")
+				cls("function-symbol-via-var-lookup")
 				return nil
 			}
 		}
 		for _, sy := range x.im.Symbols {
 			if sy.Name == c.Name && sy.Value+x.slide == uint64(addr) {
-				s.Class("other-symtab-symbol-exact")
+				cls("other-symtab-symbol-exact")
 				return nil
 			}
 		}
@@ -262,7 +289,7 @@ func runLookup(ci interface{}, s *vkit.Stats) error {
 	if uint64(addr) != want+x.slide {
 		return fmt.Errorf("variable %q: lookup gives %#x, .symtab value + load slide is %#x", c.Name, addr, want+x.slide)
 	}
-	s.Class("exact-variable")
+	cls("exact-variable")
 	return nil
 }
 
